@@ -8,7 +8,7 @@ import os, sys, subprocess, json, time, re, shutil, hashlib, random, glob, concu
 
 V = os.path.dirname(os.path.dirname(os.path.abspath(__file__)))
 sys.path.insert(0, os.path.join(V, 'tools'))
-import t1, gen
+import t1, gen, t2, gen_conc
 
 REPO = os.environ.get('VERIF_REPO', '/repo')
 BUILD = os.path.join(V, 'build')
@@ -55,7 +55,8 @@ def regen():
 
 def scan_forbidden():
     hits = []
-    for f in glob.glob(os.path.join(COQ, '*.v')) + glob.glob(os.path.join(COQ, 'gen', '*.v')):
+    proj = [l.strip() for l in open(os.path.join(COQ, '_CoqProject')) if l.strip().endswith('.v')]
+    for f in [os.path.join(COQ, x) for x in proj] + [os.path.join(COQ, 'Extract.v')]:
         txt = open(f).read()
         # strip comments
         txt2 = re.sub(r'\(\*.*?\*\)', lambda m: ' ' * len(m.group(0)), txt, flags=re.S)
@@ -559,6 +560,92 @@ def check_C15(tier, seed):
     if not violations: shutil.rmtree(keep, ignore_errors=True)
     return 1 if violations else 0
 
+# ----------------------------------------------------------------------------- T2: concurrent properties
+T2_PROPS = {
+    'C01': dict(target='Properties_C01', blame=('C01', 'C05', 'C03'), profiles=['mixed', 'resize', 'insert', 'mixed', 'locked', 'rmw']),
+    'C03': dict(target='Properties_C03', blame=('C01', 'C03'), profiles=['rmw', 'rmw', 'mixed']),
+    'C04': dict(target='Properties_C04', blame=('C04',), profiles=['resize', 'locked', 'mixed', 'insert']),
+    'C06': dict(target='Properties_C06', blame=('C06', 'C01', 'C03'), profiles=['locked']),
+}
+
+def t2_finding_sig(pid, tag, text):
+    if tag == 'C06' and ("['rehash'" in text or "['reserve'" in text):
+        return 'noop-resize-returns-during-section'
+    return None
+
+def check_T2(pid, tier, seed):
+    t0 = time.time()
+    spec = T2_PROPS[pid]
+    rng = random.Random(seed)
+    broken, okc, theorems, closed, axioms, changed = coq_stage(spec['target'])
+    cfgs = t2.CONC_CFGS_QUICK if tier == 'quick' else t2.CONC_CFGS_THOROUGH
+    bins = t2.build_conc(cfgs)
+    n = 360 if tier == 'quick' else 12000
+    if broken: n *= 3
+    keep = os.path.join(BUILD, 'cases_' + pid)
+    jobs = []
+    # corpus first: minimised schedules of the defects found so far (all fixed: they must pass)
+    for f in sorted(glob.glob(os.path.join(V, 'corpus_conc', '*.txt'))):
+        txt = open(f).read()
+        m = re.search(r'^cfg (\d+) (\d+)', txt, flags=re.M)
+        c = (int(m.group(1)), int(m.group(2)))
+        if c in bins:
+            jobs.append((bins[c], txt, 'corpus', keep, True))
+    ncorpus = len(jobs)
+    for i in range(n):
+        c = cfgs[i % len(cfgs)]
+        sc = gen_conc.gen_conc(rng.getrandbits(48), c[0], c[1], profile=spec['profiles'][i % len(spec['profiles'])])
+        jobs.append((bins[c], sc, 's%d_l%d' % c, keep, (i % 4 == 0)))
+    res = t2.run_many(jobs)
+    findings = load_findings()
+    viol, known_hits, unreplayed, unconfirmed = [], {}, [], []
+    for r in res:
+        for (tag, text) in r['problems']:
+            if tag in spec['blame']:
+                sig = t2_finding_sig(pid, tag, text)
+                kf = [f for f in findings if f['prop'] == pid and f['sig'] == sig] if sig else []
+                if kf: known_hits[sig] = kf[0]
+                else: viol.append((r, tag, text))
+        for (tag, sig, text) in r['known']:
+            if tag == pid:
+                kf = [f for f in findings if f['prop'] == pid and f['sig'] == sig]
+                if kf: known_hits[sig] = kf[0]
+                else: viol.append((r, tag, text))
+        if not r.get('replayed', True): unreplayed.append(r)
+        if r.get('confirmed') is False: unconfirmed.append(r)
+    violations = 0
+    for sig, f in known_hits.items():
+        log('KNOWN-FINDING: property=%s %s' % (pid, f['text']))
+    if viol:
+        r, tag, text = viol[0]
+        txt = open(r['path']).read() if os.path.exists(r['path']) else ''
+        path = save_replay(pid, txt, '%s: %s' % (tag, text))
+        log('VIOLATION property=%s replay=%s' % (pid, path)); violations = 1
+    elif broken or unreplayed or unconfirmed:
+        r = (unreplayed or unconfirmed or [None])[0]
+        txt = open(r['path']).read() if r and os.path.exists(r['path']) else '# no disagreeing schedule\n'
+        note = '\n'.join(broken + (['correspondence T2: the event trace of the real library is not a run of the L2 model: %s' % r.get('replay_fail')] if r in unreplayed else []) +
+                         (['the linearization found is not confirmed by the extracted sequential model'] if r in unconfirmed else []))
+        path = save_replay(pid, txt, note)
+        log('VIOLATION property=%s replay=%s no-failing-input-found' % (pid, path)); violations = 1
+    ntheorems = len([t for t in theorems if t.startswith(pid + '_')])
+    nontrivial = [r for r in res if r.get('switches', 0) >= 3 and r.get('nops', 0) >= 2]
+    sample = jobs[ncorpus][1].split('\n') if len(jobs) > ncorpus else []
+    cov = dict(obligations=max(ntheorems, 1), discharged=(ntheorems if okc else 0),
+               checker_cmd='make -C coq %s.vo (coqc 8.16.1, full .vo)' % spec['target'], trusted_base=TRUSTED_BASE + [
+                   'L2 protocol model coq/Conc.v tied to the code by trace replay (every synchronisation event of the real run must be a step of the extracted model); C++11 DRF-SC for the acquire/release spinlock is assumed, not proved'],
+               print_assumptions=dict(closed_under_global_context=closed, axioms=axioms), theorems=theorems,
+               evaluations=len(res), distinct_nontrivial=len(set(r['path'] for r in nontrivial)),
+               rule='T2: seeded multi-threaded programs (2-3 threads, 1-4 operations each, chosen colliding hashes, profiles %s, stripe/slot configs %s) run on the real library with one runnable thread at a time, the baton passed at every guarded hook (lock request/acquire/release, size/generation/lock-list accesses) according to a seeded random schedule; per run: event trace replayed in the extracted L2 model, history checked for linearizability (witness order confirmed by the extracted sequential model on every 4th run), locked-section exclusivity, deadlock/livelock/lock leak, size()==element count after join, happens-before race scan on the lock list. non-trivial = at least 3 context switches and 2 operations' % (spec['profiles'], cfgs),
+               samples=[dict(program=[l for l in sample if not l.startswith('key')])],
+               traces_validated_against_impl=len([r for r in res if r.get('replayed')]),
+               events_replayed=sum(r.get('nevents', 0) for r in res), context_switches=sum(r.get('switches', 0) for r in res),
+               linearizable_histories=len([r for r in res if r.get('linearizable')]), corpus_cases=ncorpus,
+               known_findings=sorted(known_hits.keys()), gen_changed=changed)
+    write_evidence(pid, tier, seed, cov, time.time() - t0, violations, TRUSTED_BASE)
+    if not violations: shutil.rmtree(keep, ignore_errors=True)
+    return 1 if violations else 0
+
 def replay(pid, path):
     """re-run a replay script on the current tree and print both sides' first disagreement / the judge's blames"""
     txt = open(path).read()
@@ -589,6 +676,8 @@ def main():
         sys.exit(check_C13(a.tier, seed))
     if a.pid in T1_PROPS:
         sys.exit(check_T1(a.pid, a.tier, seed))
+    if a.pid in T2_PROPS:
+        sys.exit(check_T2(a.pid, a.tier, seed))
     if a.pid == 'C14':
         sys.exit(check_C14(a.tier, seed))
     if a.pid == 'C15':
